@@ -93,6 +93,77 @@ let rec sexp_of_val (v : val0) : Sexp.t = match v with
   | VEnv fs -> L (A "env" :: List.map (fun (k, v) -> L [A (atom_of_bytes k); A (atom_of_bytes v)]) fs)
   | VConstraint -> L [A "c"]
 
+(* ---- programs (sem) ---- *)
+let z_of_decimal_any (s : string) : z =
+  (* arbitrary size decimal -> z, via Horner on the extracted Z operations *)
+  let neg = String.length s > 0 && s.[0] = '-' in
+  let digits = if neg then String.sub s 1 (String.length s - 1) else s in
+  let ten = Zpos (XO (XI (XO XH))) in
+  let acc = ref Z0 in
+  String.iter (fun c -> let d = Char.code c - 48 in
+                acc := Z.add (Z.mul !acc ten) (if d = 0 then Z0 else Zpos (pos_of_int d))) digits;
+  if neg then Z.opp !acc else !acc
+let rec expr_of_sexp (x : Sexp.t) : expr = match x with
+  | L [A "null"] -> ENull
+  | L [A "bool"; A v] -> EBool (v = "1")
+  | L [A "int"; A z] -> EInt (z_of_decimal_any z)
+  | L [A "float"; A bits] -> EFloat (z_of_decimal_any bits)
+  | L [A "str"; A s] -> EStr (bytes_of_atom s)
+  | L [A "sym"; A s] -> ESym (bytes_of_atom s)
+  | L (A "tuple" :: fs) -> ETuple (List.map field_of_sexp fs)
+  | L (A "list" :: es) -> EList (List.map expr_of_sexp es)
+  | L [A "bin"; A o; l; r] -> EBin (op_of_string o, expr_of_sexp l, expr_of_sexp r)
+  | L [A "not"; e] -> ENot (expr_of_sexp e)
+  | L [A "group"; e] -> EGroup (expr_of_sexp e)
+  | L (A "copy" :: t :: fs) -> ECopy (expr_of_sexp t, List.map field_of_sexp fs)
+  | L [A "range"; s; st; e] -> ERange (expr_of_sexp s, opt_expr st, expr_of_sexp e)
+  | L [A "fmtl"; L parts; L args] -> EFormatL (List.map part_of_sexp parts, List.map expr_of_sexp args)
+  | L [A "fmts"; L parts; e] -> EFormatS (List.map part_of_sexp parts, expr_of_sexp e)
+  | L [A "call"; f; L args] -> ECall (expr_of_sexp f, List.map expr_of_sexp args)
+  | L [A "cast"; A c; e] -> ECast ((match c with "int" -> CInt | "float" -> CFloat | "str" -> CStr | "bool" -> CBool
+                                               | _ -> failwith "cast"), expr_of_sexp e)
+  | L [A "func"; L ps; body] -> EFunc (List.map (function A p -> bytes_of_atom p | _ -> failwith "param") ps, expr_of_sexp body)
+  | L [A "select"; v; d; L arms] -> ESelect (expr_of_sexp v, opt_expr d, List.map field_of_sexp arms)
+  | L [A "map"; f; t] -> EMap (expr_of_sexp f, expr_of_sexp t)
+  | L [A "filter"; f; t] -> EFilter (expr_of_sexp f, expr_of_sexp t)
+  | L [A "reduce"; f; a; t] -> EReduce (expr_of_sexp f, expr_of_sexp a, expr_of_sexp t)
+  | L [A "module"; L ps; o; L body] -> EModule (List.map field_of_sexp ps, opt_expr o, List.map stmt_of_sexp body)
+  | L [A "fail"; e] -> EFail (expr_of_sexp e)
+  | L [A "trace"; e] -> ETrace (expr_of_sexp e)
+  | L [A "import"; A p] -> EImport (bytes_of_atom p)
+  | L [A "include"; A t; A p] -> EInclude (bytes_of_atom t, bytes_of_atom p)
+  | L [A "convert"; A t; e] -> EConvert (bytes_of_atom t, expr_of_sexp e)
+  | _ -> failwith ("expr: " ^ Sexp.to_string x)
+and opt_expr = function A "_" -> None | e -> Some (expr_of_sexp e)
+and field_of_sexp = function L [A k; e] -> (bytes_of_atom k, expr_of_sexp e) | _ -> failwith "field"
+and part_of_sexp = function
+  | L [A "s"; A s] -> PStr (bytes_of_atom s) | L [A "hole"] -> PHole | L [A "e"; e] -> PExpr (expr_of_sexp e)
+  | _ -> failwith "part"
+and stmt_of_sexp = function
+  | L [A "let"; A x; e] -> SLet (bytes_of_atom x, expr_of_sexp e)
+  | L [A "expr"; e] -> SExpr (expr_of_sexp e)
+  | L [A "assert"; e] -> SAssert (expr_of_sexp e)
+  | L [A "out"; A t; e] -> SOut (bytes_of_atom t, expr_of_sexp e)
+  | _ -> failwith "stmt"
+let rec z_to_string (z : z) : string = string_of_chars (dec_of_Z z)
+let rec sexp_of_value (v : value) : Sexp.t = match v with
+  | VNull -> L [A "null"]
+  | VBool0 v -> L [A "bool"; A (if v then "1" else "0")]
+  | VInt0 z -> L [A "int"; A (z_to_string z)]
+  | VFloat0 f -> L [A "float"; A (z_to_string (sem_float_bits f))]
+  | VStr0 s -> L [A "str"; A (atom_of_bytes s)]
+  | VList0 l -> L (A "list" :: List.map sexp_of_value l)
+  | VTuple0 fs -> L (A "tuple" :: List.map (fun (k, v) -> L [A (atom_of_bytes k); sexp_of_value v]) fs)
+  | VFunc _ -> L [A "func"]
+  | VModule _ -> L [A "module"]
+let run_sem = function
+  | L [A fuel; A strict; A ordered; L envl; L stmts] ->
+    let envv = List.map (function L [A k; A v] -> (bytes_of_atom k, bytes_of_atom v) | _ -> failwith "env") envl in
+    (match sem_run (nat_of_int (int_of_string fuel)) envv (strict = "1") (ordered = "1") (List.map stmt_of_sexp stmts) with
+     | Ok0 bs -> "ok " ^ to_string (L (List.map (fun (k, v) -> L [A (atom_of_bytes k); sexp_of_value v]) bs))
+     | Err0 -> "err" | Unsup -> "unsup" | Fuel -> "fuel")
+  | _ -> failwith "sem"
+
 (* ---- C14 ---- *)
 let opt_bytes = function A "none" -> None | A a -> Some (bytes_of_atom a) | _ -> failwith "opt_bytes"
 let run_out atomic = function
@@ -132,6 +203,7 @@ let run mode (line : string) : string =
   | "b64dec" -> (match x with L [A u; A h] -> (match b64_decode (u = "1") (bytes_of_atom h) with
                                                | None -> "none" | Some r -> atom_of_bytes r) | _ -> failwith "b64dec")
   | "normalize" -> (match x with A h -> atom_of_bytes (normalize (bytes_of_atom h)) | _ -> failwith "normalize")
+  | "sem" -> run_sem x
   | "zdec" -> (match x with A s -> string_of_z (z_of_string s) | _ -> failwith "zdec")
   | _ -> failwith ("mode " ^ mode)
 
